@@ -246,6 +246,9 @@ func c41SequenceNumberOwner(c *Ctx) {
 				writers = append(writers, name)
 				if !strings.HasPrefix(name, "(*gateway/dataplane.encoder).") && name != "gateway/dataplane.newEncoder" {
 					bad = append(bad, name)
+				} else if val := NewSymer().Sym(st.Val); val != "(recv.seq + 1)" && val != "0" && !strings.HasPrefix(val, "0:") {
+					// in the encoder it only ever advances by one (or starts at zero)
+					bad = append(bad, name+" stores "+val)
 				}
 			}
 		}
@@ -254,8 +257,4 @@ func c41SequenceNumberOwner(c *Ctx) {
 	c.Min("encoder.seq-writers", len(writers), 1)
 	c.Check(len(bad) == 0, rule, "gateway/dataplane.encoder.seq:written-only-by-the-encoder", 0, fmt.Sprintf(
 		"written by %v; outside the encoder: %v", writers, bad))
-	// in the encoder it only ever advances by one, after it was written into the frame
-	if v := c.View("(*gateway/dataplane.encoder).Read"); v != nil {
-		v.RequireStore(rule, 1, "recv.seq", "(recv.seq + 1)")
-	}
 }
